@@ -28,6 +28,18 @@ Keys:  kind=<class> route=<copy route> sym=<what>
                                       the very same objects (default copy protocol), confirmed
                                       by at least one observed leak
     copy_raised:<Exc> / edit_fails_on_copy:<edit>
+    unfaithful:<field>(raised:<Exc>)  the copy cannot answer a read the original answers
+    diverges:<field>                  after an edit that makes a component re-derive <field>
+                                      (one colour sized to the owner, focal length / field of view
+                                      after a resolution change) the copy reports another value
+                                      than an identically built, never copied object given the
+                                      same edit - see _REDERIVING
+
+Round 4: variants `...+derived_reads` also read what a mesh hands out as mutable objects (convex
+hull, facets, vertex neighbours, adjacency graph, sparse matrices) and index-backed queries
+(closest surface point, kdtree) - a state where the cache holds more than read-only arrays;
+scenes with a camera / lights that were set, graph options, a primitive among the geometries;
+textured meshes with further per-vertex data in the visual; meshes with given vertex normals.
 """
 
 from __future__ import annotations
@@ -45,7 +57,9 @@ RULE = (
     "side). kinds: Trimesh (plain / face colours / vertex colours / texture+PIL image / attributes), "
     "primitives Box Sphere Cylinder Capsule Extrusion with non-default sections/subdivisions, Path2D, "
     "Path3D, PointCloud with colours, Scene (nested graph, geometry instanced twice, nested metadata), "
-    "VoxelGrid x {Dense, Sparse, RLE, BRLE}. distinct = distinct (kind, variant, parameter seed, route, "
+    "VoxelGrid x {Dense, Sparse, RLE, BRLE}; states: derived objects and spatial indexes read before the copy, "
+    "given vertex normals, per-vertex data in a texture visual, scene with camera (focal / fov defined) and "
+    "lights set, graph options, primitive among the scene geometries. distinct = distinct (kind, variant, parameter seed, route, "
     "edit, edited side, source warm, other side warm); non-trivial = the edit changed the snapshot of "
     "the edited object (so a leak was observable)."
 )
@@ -76,6 +90,9 @@ ASSUMPTIONS = [
     "snap() reads public attributes only and does not change what the objects report",
     "sharing of read-only (writeable=False) cached arrays is allowed by the statement",
     "face_attributes / vertex_attributes are not in the statement: differences are evidence only",
+    "camera and lights that were SET (constructor arguments of Scene) are parameters of a scene; generated defaults are not read",
+    "scene._lights is peeked only to decide whether reading scene.lights would generate lights (random names, new graph nodes)",
+    "kdtree ties: both sides build the same tree from the same points, so the reported index is deterministic",
 ]
 EXHAUSTIVE = {"quick": False, "thorough": False}
 
@@ -193,12 +210,20 @@ def snap_visual(v, S, pre=""):
         S[pre + "visual.vertex_colors"] = _try(lambda: v.vertex_colors)
     elif kind == "texture":
         S[pre + "visual.uv"] = _try(lambda: v.uv)
+        # per-vertex data of the visual besides uv (the glTF loader keeps COLOR_0 there)
+        S[pre + "visual.vertex_attributes"] = _try(lambda: {k: a for k, a in v.vertex_attributes.items() if k != "uv"})
         mat = getattr(v, "material", None)
         if mat is not None:
             S[pre + "visual.material.main_color"] = _try(lambda: mat.main_color)
             img = getattr(mat, "image", None)
             if img is not None:
                 S[pre + "visual.material.image"] = _try(lambda: (list(img.size), img.mode, img.tobytes()))
+
+
+# the variants named `...+derived_reads` also read derived objects and index-backed queries (these
+# reads cost as much as all the others together, so they are not made for every history)
+_READS = {"derived": False}
+_PROBES = np.array([[0.25, 0.5, 9.0], [7.0, -3.0, 2.0], [-6.0, 0.5, 0.25]])
 
 
 def snap_mesh(m, S, pre=""):
@@ -217,6 +242,18 @@ def snap_mesh(m, S, pre=""):
     S[pre + "vertex_normals"] = _try(lambda: m.vertex_normals)
     S[pre + "center_mass"] = _try(lambda: m.center_mass)
     S[pre + "density"] = _try(lambda: m.density)
+    if _READS["derived"]:
+        # derived values that are themselves mutable objects (a mesh, lists) and queries answered
+        # from spatial indexes: closest surface point / closest vertex of fixed probe points
+        S[pre + "convex_hull"] = _try(lambda: [m.convex_hull.volume, m.convex_hull.bounds, len(m.convex_hull.faces)])
+        S[pre + "facets"] = _try(lambda: list(m.facets))
+        S[pre + "vertex_neighbors"] = _try(lambda: [list(r) for r in m.vertex_neighbors])
+        S[pre + "vertex_adjacency_graph"] = _try(lambda: sorted(sorted(int(i) for i in e) for e in m.vertex_adjacency_graph.edges))
+        S[pre + "faces_sparse"] = _try(lambda: np.asarray(m.faces_sparse.todense()))
+        S[pre + "nearest"] = _try(lambda: list(m.nearest.on_surface(_PROBES)[:2]))
+        # (one probe next to the first vertex: an index that still looks at memory of another
+        # object answers for that object's first vertex)
+        S[pre + "kdtree"] = _try(lambda: list(m.kdtree.query(np.vstack([_PROBES, np.asarray(m.vertices)[:1] + (0.125, 0.25, 0.375)]))))
     snap_visual(m.visual, S, pre)
     S[pre + "metadata"] = _try(lambda: m.metadata)
     S[pre + "attributes"] = _try(lambda: {"face": dict(m.face_attributes), "vertex": dict(m.vertex_attributes)})
@@ -245,6 +282,8 @@ def snap_cloud(c, S, pre=""):
     S[pre + "vertices"] = _try(lambda: c.vertices)
     S[pre + "colors"] = _try(lambda: c.colors)
     S[pre + "bounds"] = _try(lambda: c.bounds)
+    if _READS["derived"]:
+        S[pre + "kdtree"] = _try(lambda: list(c.kdtree.query(np.vstack([_PROBES, np.asarray(c.vertices)[:1] + (0.125, 0.25, 0.375)]))))
     S[pre + "metadata"] = _try(lambda: c.metadata)
 
 
@@ -271,6 +310,7 @@ def snap_scene(s, S, pre=""):
 
     S[pre + "graph.edges"] = _try(edges)
     S[pre + "graph.base_frame"] = _try(lambda: s.graph.base_frame)
+    S[pre + "graph.repair_rigid"] = _try(lambda: s.graph.repair_rigid)
 
     def world():
         return {str(n): [np.array(s.graph.get(n)[0]), plain(s.graph.get(n)[1])] for n in sorted(s.graph.nodes, key=str)}
@@ -281,6 +321,26 @@ def snap_scene(s, S, pre=""):
         snap_any(s.geometry[name], S, pre + "geometry[%s]." % name)
     S[pre + "bounds"] = _try(lambda: s.bounds)
     S[pre + "metadata"] = _try(lambda: s.metadata)
+    # camera and lights are read only when they have been set: reading them otherwise makes the
+    # scene generate defaults with random names (and add nodes to the graph)
+    S[pre + "camera.set"] = _try(lambda: bool(s.has_camera))
+    if S[pre + "camera.set"] is True:
+        cam = s.camera
+        for key in ("name", "resolution", "focal", "fov", "z_near", "z_far", "K"):
+            S[pre + "camera." + key] = _try(lambda key=key: getattr(cam, key))
+        S[pre + "camera.transform"] = _try(lambda: s.camera_transform)
+    S[pre + "lights.set"] = getattr(s, "_lights", None) is not None
+    if S[pre + "lights.set"]:
+
+        def lights():
+            out = []
+            for L in s.lights:
+                out.append({"type": type(L).__name__, "name": L.name, "color": np.array(L.color), "intensity": L.intensity,
+                            "radius": L.radius, "cone": [getattr(L, "innerConeAngle", None), getattr(L, "outerConeAngle", None)],
+                            "transform": np.array(s.graph.get(L.name)[0]) if L.name in s.graph.nodes else None})
+            return out
+
+        S[pre + "lights"] = _try(lights)
 
 
 def snap_entity(e, S, pre=""):
@@ -363,6 +423,17 @@ def f_trimesh(variant):
             m.visual.vertex_colors = rng.integers(0, 256, size=(len(V), 4)).astype(np.uint8)
         elif variant == "texture":
             m.visual = TextureVisuals(uv=rng.random((len(V), 2)), image=_image(rng))
+        elif variant == "texture+vertex_data":
+            # a textured mesh that also has per-vertex colours, as the glTF loader builds it
+            # (TEXCOORD_0 + COLOR_0): the colours are kept next to uv in the visual
+            m.visual = TextureVisuals(uv=rng.random((len(V), 2)), image=_image(rng))
+            m.visual.vertex_attributes["color"] = rng.integers(0, 256, size=(len(V), 4)).astype(np.uint8)
+            m.visual.vertex_attributes["weight"] = rng.random(len(V))
+        elif variant == "given_vertex_normals":
+            # vertex normals that come with the data (constructor / setter / OBJ vn, PLY nx ny nz,
+            # glTF NORMAL), not the ones the library would derive from the faces
+            N = rng.normal(size=(len(V), 3))
+            m.vertex_normals = N / np.linalg.norm(N, axis=1)[:, None]
         elif variant == "attrs":
             m.face_attributes["w"] = rng.random(len(F))
             m.vertex_attributes["w"] = rng.random((len(V), 2))
@@ -454,23 +525,69 @@ def f_cloud(seed):
                               colors=rng.integers(0, 256, size=(n, 4)).astype(np.uint8), metadata=NESTED())
 
 
-def f_scene(seed):
-    import trimesh
-    from trimesh import transformations as tf
+def f_scene_with(camera=None, lights=False, graph_options=False, primitive=False):
+    """
+    The nested scene, optionally with what else a Scene holds: a camera that was set (defined by
+    its focal length or by its field of view, non-default clipping planes), lights that were set
+    (one of each class, placed in the graph), a transform graph built with non-default options
+    (base frame name, rigid-repair threshold, node transforms that are rigid only to ~1e-6) and a
+    primitive among the geometries.
+    """
 
-    rng = np.random.default_rng(seed)
-    a = f_trimesh("face")(seed * 3 + 1)
-    b = f_trimesh("plain")(seed * 3 + 2)
-    s = trimesh.Scene()
-    s.add_geometry(a, node_name="a0", geom_name="A", transform=_rigid(rng))
-    # the same geometry instanced a second time, deeper in the graph
-    s.add_geometry(a, node_name="a1", geom_name="A", parent_node_name="a0", transform=_rigid(rng))
-    s.graph.update(frame_to="group", frame_from="a0", matrix=tf.translation_matrix(rng.integers(-3, 4, size=3)))
-    s.add_geometry(b, node_name="b0", geom_name="B", parent_node_name="group", transform=_rigid(rng))
-    if seed % 2:
-        s.add_geometry(f_cloud(seed + 5), node_name="c0", geom_name="C", transform=_rigid(rng))
-    s.metadata.update(NESTED())
-    return s
+    def make(seed):
+        import trimesh
+        from trimesh import primitives as P
+        from trimesh import transformations as tf
+        from trimesh.scene import lighting
+        from trimesh.scene.cameras import Camera
+        from trimesh.scene.transforms import SceneGraph
+
+        rng = np.random.default_rng(seed)
+        a = f_trimesh("face")(seed * 3 + 1)
+        b = f_trimesh("plain")(seed * 3 + 2)
+        if graph_options:
+            threshold = (None, 1e-3, 1e-9)[seed % 3]
+            s = trimesh.Scene(base_frame="root", graph=SceneGraph(base_frame="root", repair_rigid=threshold))
+
+            def place():
+                M = _rigid(rng)
+                M[:3, :3] += rng.uniform(-1.0, 1.0, size=(3, 3)) * (3e-5 if threshold == 1e-3 else 1e-6)
+                return M
+        else:
+            s = trimesh.Scene()
+            place = lambda: _rigid(rng)  # noqa
+        s.add_geometry(a, node_name="a0", geom_name="A", transform=place())
+        # the same geometry instanced a second time, deeper in the graph
+        s.add_geometry(a, node_name="a1", geom_name="A", parent_node_name="a0", transform=place())
+        s.graph.update(frame_to="group", frame_from="a0", matrix=tf.translation_matrix(rng.integers(-3, 4, size=3)))
+        s.add_geometry(b, node_name="b0", geom_name="B", parent_node_name="group", transform=place())
+        if seed % 2:
+            s.add_geometry(f_cloud(seed + 5), node_name="c0", geom_name="C", transform=place())
+        if primitive:
+            s.add_geometry(f_primitive(("Sphere", "Box", "Cylinder")[seed % 3])(seed + 9), node_name="p0", geom_name="P", transform=place())
+        if camera == "focal":
+            s.camera = Camera(name="cam", focal=(float(rng.integers(300, 700)), float(rng.integers(300, 700))), resolution=(640, 480),
+                              z_near=0.5, z_far=float(rng.integers(20, 90)))
+            s.camera_transform = _rigid(rng)
+        elif camera == "fov":
+            s.camera = Camera(name="cam", fov=(float(rng.integers(40, 80)), float(rng.integers(30, 60))), resolution=(320, 200),
+                              z_near=0.25, z_far=float(rng.integers(20, 90)))
+            s.camera_transform = _rigid(rng)
+        if lights:
+            s.lights = [
+                lighting.PointLight(name="lamp", color=[255, 10, 20, 255], intensity=float(rng.integers(2, 9)), radius=12.5),
+                lighting.DirectionalLight(name="sun", intensity=float(rng.integers(2, 9))),
+                lighting.SpotLight(name="spot", color=[1, 2, 3, 255], intensity=2.0, innerConeAngle=0.1, outerConeAngle=0.5),
+            ]
+            for L in s.lights:
+                s.graph.update(frame_to=L.name, matrix=_rigid(rng))
+        s.metadata.update(NESTED())
+        return s
+
+    return make
+
+
+f_scene = f_scene_with()
 
 
 def f_voxel(enc):
@@ -558,12 +675,17 @@ def _prep_voxel_warm_transform(v):
 
 def factories():
     out = []
-    for v in ("plain", "face", "vertex", "texture", "attrs", "default_vertex_colors_edited", "default_face_colors_edited"):
+    for v in ("plain", "face", "vertex", "texture", "attrs", "default_vertex_colors_edited", "default_face_colors_edited",
+              "texture+vertex_data", "given_vertex_normals"):
         out.append(("Trimesh", v, f_trimesh(v)))
     # states reached by a history before the copy is taken
     out.append(("Trimesh", "plain+warm_inplace_edit", prepared(f_trimesh("plain"), _prep_warm_inplace_vertices)))
     out.append(("Trimesh", "plain+normals_transform", prepared(f_trimesh("plain"), _prep_normals_transform)))
     out.append(("Trimesh", "plain+mass_override", prepared(f_trimesh("plain"), _prep_mass_override)))
+    out.append(("Trimesh", "plain+derived_reads", f_trimesh("plain")))
+    out.append(("Sphere", "params+derived_reads", f_primitive("Sphere")))
+    out.append(("Box", "params+derived_reads", f_primitive("Box")))
+    out.append(("PointCloud", "colors+derived_reads", f_cloud))
     for c in ("Box", "Cylinder"):
         out.append((c, "params+mass_override", prepared(f_primitive(c), _prep_mass_override)))
         out.append((c, "params+warm_param_edit", prepared(f_primitive(c), _prep_warm_param)))
@@ -583,6 +705,11 @@ def factories():
     out.append(("Arc", "entity", f_entity("Arc")))
     out.append(("PointCloud", "colors", f_cloud))
     out.append(("Scene", "nested", f_scene))
+    # what else a scene holds: camera, lights, graph options, a primitive among the geometries
+    out.append(("Scene", "nested+camera(focal)+lights", f_scene_with(camera="focal", lights=True)))
+    out.append(("Scene", "nested+camera(fov)", f_scene_with(camera="fov")))
+    out.append(("Scene", "nested+graph_options", f_scene_with(graph_options=True)))
+    out.append(("Scene", "nested+primitive+derived_reads", f_scene_with(primitive=True)))
     for e in ("Dense", "Sparse", "RLE", "BRLE"):
         out.append(("VoxelGrid", e, f_voxel(e)))
     return out
@@ -628,6 +755,26 @@ def _meta_top(o):
     o.metadata["name"] = "renamed"
 
 
+def _light(s, name):
+    # only lights that were set: a scene without lights would generate defaults on the read, and
+    # their colour is ONE module-level array (trimesh/scene/lighting.py _DEFAULT_RGBA) - writing
+    # into it would change every default-coloured light of the process, i.e. the monitor's twins
+    if getattr(s, "_lights", None) is None:
+        raise LookupError("the scene has no lights set")
+    return [L for L in s.lights if L.name == name][0]
+
+
+def _derived_edits():
+    return [
+        ("derived_hull_apply_scale", lambda m: m.convex_hull.apply_scale(2.0)),
+        ("derived_hull_vertices_inplace", lambda m: m.convex_hull.vertices.__setitem__((0, 0), m.convex_hull.vertices[0, 0] - 2.5)),
+        ("derived_facets_inplace", lambda m: m.facets[0].__setitem__(0, (m.facets[0][0] + 1) % len(m.faces))),
+        ("derived_vertex_neighbors_append", lambda m: m.vertex_neighbors[0].append(len(m.vertices) - 1)),
+        ("derived_graph_remove_node", lambda m: m.vertex_adjacency_graph.remove_node(0)),
+        ("derived_sparse_data_inplace", lambda m: m.faces_sparse.data.__setitem__(0, False)),
+    ]
+
+
 def edits_for(obj, variant):
     import trimesh
     import trimesh.path.entities  # noqa
@@ -654,6 +801,8 @@ def edits_for(obj, variant):
             E.append(("param_extents", lambda p: setattr(p.primitive, "extents", [2.5, 3.5, 4.5])))
             E.append(("param_extents_inplace", lambda p: p.primitive.extents.__setitem__(0, p.primitive.extents[0] + 1.5)))
         E += common
+        if "derived_reads" in variant:
+            E = [e for e in E if e[0] in ("apply_transform_scale", "param_radius", "param_extents")] + _derived_edits()
     elif isinstance(obj, trimesh.Trimesh):
         E += [
             ("vertices_inplace", lambda m: m.vertices.__setitem__((0, 0), m.vertices[0, 0] + 1.5)),
@@ -681,7 +830,19 @@ def edits_for(obj, variant):
             E.append(("visual_default_colors_inplace", lambda m: m.visual.face_colors.__setitem__(0, [1, 2, 3, 255])))
         if variant == "attrs":
             E.append(("attributes_inplace", lambda m: m.vertex_attributes["w"].__setitem__((0, 0), 77.0)))
+        if variant == "texture+vertex_data":
+            E.append(("visual_vertex_data_inplace", lambda m: m.visual.vertex_attributes["color"].__setitem__(0, [1, 2, 3, 255])))
+            E.append(("visual_vertex_data_assign", lambda m: m.visual.vertex_attributes.__setitem__("weight", np.arange(len(m.vertices)) * 0.5)))
+        if variant == "given_vertex_normals":
+            E.append(("vertex_normals_assign", lambda m: setattr(m, "vertex_normals", np.roll(np.array(m.vertex_normals), 1, axis=1))))
+        if variant in ("face", "vertex", "plain"):
+            # fewer elements, then one colour for all of them: the visual sizes the colours it
+            # reports from the object it is attached to
+            E.append(("faces_subset_then_one_face_color", lambda m: (setattr(m, "faces", np.array(m.faces[:-1])), setattr(m.visual, "face_colors", [9, 8, 7, 255]))))
         E += common
+        if "derived_reads" in variant:
+            # edits of what the mesh hands out: the hull is a mesh, facets / neighbours are lists
+            E = [e for e in E if e[0] in ("vertices_inplace", "apply_transform", "update_faces")] + _derived_edits()
     elif isinstance(obj, trimesh.path.path.Path):
         d = obj.vertices.shape[1]
         E += [
@@ -713,7 +874,12 @@ def edits_for(obj, variant):
             ("apply_transform", lambda c: c.apply_transform(_T)),
             ("colors_inplace", lambda c: c.colors.__setitem__(0, [1, 2, 3, 255])),
             ("colors_assign", lambda c: setattr(c, "colors", np.tile(np.array([9, 8, 7, 255], dtype=np.uint8), (len(c.vertices), 1)))),
+            ("colors_assign_one", lambda c: setattr(c, "colors", [9, 8, 7, 255])),
+            ("vertices_subset_then_one_color", lambda c: (setattr(c, "vertices", np.array(c.vertices[: len(c.vertices) // 2])), setattr(c, "colors", [9, 8, 7, 255]))),
+            ("vertices_extended_then_one_color", lambda c: (setattr(c, "vertices", np.vstack([c.vertices, c.vertices + 0.5])), setattr(c, "colors", [9, 8, 7, 255]))),
         ] + common
+        if "derived_reads" in variant:
+            E = [e for e in E if e[0] in ("vertices_inplace", "apply_transform", "vertices_subset_then_one_color")]
     elif isinstance(obj, trimesh.Scene):
         E += [
             ("graph_update", lambda s: s.graph.update(frame_to="a1", frame_from="a0", matrix=_T2, geometry="A")),
@@ -726,6 +892,33 @@ def edits_for(obj, variant):
             ("delete_geometry", lambda s: s.delete_geometry("B")),
             ("add_geometry", lambda s: s.add_geometry(f_trimesh("plain")(7), node_name="new", geom_name="N")),
         ] + common
+        basic = ("graph_update", "graph_matrix_inplace", "geometry_vertices_inplace", "scene_apply_transform", "metadata_nested")
+        if variant == "nested+graph_options":
+            # the other edits are made on the plain nested scene
+            E = [e for e in E if e[0] in basic]
+        elif variant != "nested" and not variant.startswith("nested+warm"):
+            E = [e for e in E if e[0] in basic[:3]]
+        if "camera" in variant:
+            E += [
+                ("camera_resolution_assign", lambda s: setattr(s.camera, "resolution", (1280, 960))),
+                ("camera_fov_assign", lambda s: setattr(s.camera, "fov", (50.0, 35.0))),
+                ("camera_focal_assign", lambda s: setattr(s.camera, "focal", (410.0, 390.0))),
+                ("camera_clipping_assign", lambda s: (setattr(s.camera, "z_near", 2.0), setattr(s.camera, "z_far", 7.0))),
+                ("camera_transform_assign", lambda s: setattr(s, "camera_transform", _T2)),
+            ]
+        if "lights" in variant:
+            E += [
+                ("light_intensity_assign", lambda s: setattr(_light(s, "lamp"), "intensity", 11.0)),
+                ("light_color_inplace", lambda s: _light(s, "lamp").color.__setitem__(1, 77)),
+                ("light_cone_assign", lambda s: setattr(_light(s, "spot"), "outerConeAngle", 0.75)),
+                ("lights_remove", lambda s: s.lights.remove(_light(s, "spot"))),
+                ("light_transform", lambda s: s.graph.update(frame_to="lamp", matrix=_T2)),
+            ]
+        if "primitive" in variant:
+            E += [
+                ("geometry_primitive_transform", lambda s: s.geometry["P"].apply_transform(_T2)),
+                ("geometry_primitive_metadata", lambda s: s.geometry["P"].metadata["nested"]["list"].append("x")),
+            ]
     elif isinstance(obj, trimesh.voxel.VoxelGrid):
         E += [
             ("apply_transform", lambda v: v.apply_transform(_T2)),
@@ -743,12 +936,17 @@ def edits_for(obj, variant):
 # the protocol
 
 # fields that only restate a primitive's parameters: a parameter difference explains them
-_DERIVED = ("vertices", "faces", "bounds", "area", "volume", "centroid", "face_normals", "vertex_normals", "center_mass")
+_DERIVED = ("vertices", "faces", "bounds", "area", "volume", "centroid", "face_normals", "vertex_normals", "center_mass",
+            "convex_hull", "facets", "vertex_neighbors", "vertex_adjacency_graph", "faces_sparse", "nearest", "kdtree")
+# values derived from vertices / faces
+_FROM_VERTICES = ("bounds", "area", "volume", "centroid", "face_normals", "vertex_normals", "center_mass", "length", "n_polygons",
+                  "convex_hull", "facets", "vertex_neighbors", "vertex_adjacency_graph", "faces_sparse", "nearest", "kdtree")
 
 
 def _reduce_fields(fields):
     """Top-level names used in keys; derived geometry is dropped when a parameter explains it."""
-    fields = [f for f in fields if not f.endswith("attributes")]
+    # mesh.face_attributes / vertex_attributes (field `attributes`) are not in the statement
+    fields = [f for f in fields if f.split(".")[-1] != "attributes"]
     if any(f.startswith("primitive.") for f in fields):
         fields = [f for f in fields if f not in _DERIVED and not f.startswith("visual.")]
     out = []
@@ -760,13 +958,27 @@ def _reduce_fields(fields):
     # scene-level values derived from the graph / the geometries
     if any(f.startswith("graph.edges") or f.startswith("geometry.") for f in out):
         out = [f for f in out if f not in ("bounds", "graph.world")]
+    # a graph option explains the world transforms; a camera / light list that is not there
+    # explains its values; focal length, field of view and K restate each other
+    if "graph.repair_rigid" in out:
+        out = [f for f in out if f not in ("bounds", "graph.world")]
+    if "camera.set" in out:
+        out = [f for f in out if not f.startswith("camera.") or f == "camera.set"]
+    if "lights.set" in out:
+        out = [f for f in out if f != "lights"]
+    if "camera.focal" in out:
+        out = [f for f in out if f not in ("camera.fov", "camera.K")]
     if "transform" in out or "encoding.dense" in out:
         out = [f for f in out if f not in ("bounds", "points", "volume", "filled_count", "shape")]
-    if "vertices" in out or "faces" in out:
-        out = [f for f in out if f not in ("bounds", "area", "volume", "centroid", "face_normals", "vertex_normals", "center_mass", "length", "n_polygons")]
+    for pre in sorted({f[: -len("vertices")] for f in out if f.endswith("vertices")} | {f[: -len("faces")] for f in out if f.endswith("faces")}):
+        out = [f for f in out if not (f.startswith(pre) and f[len(pre):] in _FROM_VERTICES)]
     if "entities" in out:
         out = [f for f in out if f not in ("length", "area", "bounds", "n_polygons")]
     return sorted(set(out))
+
+
+def _raised(v):
+    return isinstance(v, (tuple, list)) and len(v) == 2 and isinstance(v[0], str) and v[0] == "raised"
 
 
 def is_shallow_dict_copy(x, y):
@@ -784,6 +996,19 @@ class History:
         self.run, self.kind, self.variant, self.make, self.seed = run, kind, variant, make, seed
         self.route_name, self.route = route_name, route
 
+    def reads(self):
+        _READS["derived"] = "derived_reads" in self.variant
+
+    def reference(self):
+        """S0: the snapshot of an identically built object that nothing has touched (detached plain values)."""
+        k = (self.kind, self.variant, self.seed)
+        if k not in _S0:
+            if len(_S0) > 64:
+                _S0.clear()
+            self.reads()
+            _S0[k] = snap(self.make(self.seed))
+        return _S0[k]
+
     def case(self, **kw):
         d = {"kind": self.kind, "variant": self.variant, "seed": int(self.seed), "route": self.route_name}
         d.update(kw)
@@ -793,13 +1018,32 @@ class History:
         return "kind=%s route=%s sym=%s" % (self.kind, self.route_name, sym)
 
 
+# Edits after which a component of the object RE-DERIVES values it reports from its own parameters
+# or from its owner (a visual sizes one colour to the element count of the object it is attached
+# to; a camera recomputes focal length or field of view from the one that was set).  Which
+# parameter is the defining one, and which object a visual is attached to, is part of "identical
+# parameters / visuals": for these edits - and these fields only - the copy is compared with an
+# identically built object that was never copied and received the same edit.  (Not a general law:
+# copying may settle pending state of the source, e.g. unverified in-place colour edits.)
+_REDERIVING = {
+    "vertices_subset_then_one_color": ("colors",),
+    "vertices_extended_then_one_color": ("colors",),
+    "colors_assign_one": ("colors",),
+    "faces_subset_then_one_face_color": ("visual.face_colors", "visual.kind"),
+    "camera_resolution_assign": ("camera.focal", "camera.fov", "camera.K", "camera.resolution"),
+    "camera_fov_assign": ("camera.focal", "camera.fov", "camera.K"),
+    "camera_focal_assign": ("camera.focal", "camera.fov", "camera.K"),
+}
+
+_S0 = {}
 _FAITHFUL = {}  # (kind, variant, route) -> unfaithful reduced fields, from the faithful stage
 
 
 def faithful_stage(h, src_warm):
     """snap(route(x)) == S0.  Returns False when the route is unusable."""
     run = h.run
-    S0 = snap(h.make(h.seed))
+    h.reads()
+    S0 = h.reference()
     x = h.make(h.seed)
     if src_warm:
         snap(x)
@@ -817,10 +1061,17 @@ def faithful_stage(h, src_warm):
     attr = [f for f in raw if f.endswith("attributes")]
     if attr:
         run.count("evidence_attributes_not_copied:%s:%s" % (h.kind, h.route_name))
-    _FAITHFUL[(h.kind, h.variant, h.route_name)] = set(fields)
+    # (both source states of one history class: the union is what later stages must not re-report)
+    _FAITHFUL.setdefault((h.kind, h.variant, h.route_name), set()).update(fields)
     for f in fields:
-        run.violation(h.key("unfaithful:" + f), "the copy reports a different `%s` than the original" % f,
-                      h.case(src_warm=src_warm, field=f, original=_brief(S0.get(f)), copy=_brief(Sy.get(f)), all_fields=raw))
+        sym = "unfaithful:" + f
+        fr = [r for r in raw if re.sub(r"geometry\[[^\]]*\]\.", "geometry.", r) == f]
+        bad = [Sy.get(r) for r in fr if _raised(Sy.get(r)) and not _raised(S0.get(r))]
+        if bad:
+            # the copy cannot answer what the original answers
+            sym += "(raised:%s)" % bad[0][1]
+        run.violation(h.key(sym), "the copy reports a different `%s` than the original" % f,
+                      h.case(src_warm=src_warm, field=f, original=_brief(S0.get(fr[0] if fr else f)), copy=_brief(Sy.get(fr[0] if fr else f)), all_fields=raw))
     if y is x:
         run.violation(h.key("copy_is_same_object"), "the copy route returned the original object", h.case())
     # the source must not have been changed by copying it
@@ -843,7 +1094,8 @@ def _brief(v):
 def edit_stage(h, edit_name, edit, side, src_warm, other_warm):
     """One edit on `side` ('copy' | 'original'); the other side must still report S0."""
     run = h.run
-    S0 = snap(h.make(h.seed))
+    h.reads()
+    S0 = h.reference()
     x = h.make(h.seed)
     if src_warm:
         snap(x)
@@ -886,8 +1138,35 @@ def edit_stage(h, edit_name, edit, side, src_warm, other_warm):
             run.skip("edit not applicable: %s/%s (%s)" % (h.kind, edit_name, type(e).__name__))
         run.case(tag, *digest, nontrivial=False)
         return
+    # the edited side is read again before the other one: what it recomputes must not land in
+    # anything the other side reads
     S_target = snap(target)
     changed = diff(S0, S_target)
+    rederive = (side == "copy" and not shallow and edit_name in _REDERIVING
+                and not known_unfaithful.intersection(_REDERIVING[edit_name]))
+    if rederive:
+        # a faithful copy is in the state of the original: the same edit applied to a never
+        # copied twin (same source state) must lead to the same re-derived values
+        twin = h.make(h.seed)
+        if src_warm:
+            snap(twin)
+        try:
+            edit(twin)
+            S_twin = snap(twin)
+        except BaseException as e:  # noqa
+            if isinstance(e, KeyboardInterrupt):
+                raise
+            S_twin = None
+        if S_twin is not None:
+            run.count("twin_comparisons")
+            for f in _reduce_fields(diff(S_twin, S_target)):
+                if f not in _REDERIVING[edit_name]:
+                    run.count("evidence_twin_differs_elsewhere:%s:%s" % (h.kind, f))
+                    continue
+                run.violation(h.key("diverges:" + f),
+                              "after the same edit the copy reports another `%s` than an identically built object that was never copied" % f,
+                              h.case(edit=edit_name, side=side, src_warm=src_warm, other_warm=other_warm, field=f,
+                                     twin=_brief(S_twin.get(f)), copy=_brief(S_target.get(f))))
     S_other = snap(other)
     raw = diff(S0, S_other)
     fields = [f for f in _reduce_fields(raw) if not (other is y and f in known_unfaithful)]
@@ -919,6 +1198,7 @@ def walker_stage(h, src_warm):
     from vmon.instrument import shared_mutable
 
     run = h.run
+    h.reads()
     x = h.make(h.seed)
     if src_warm:
         snap(x)
@@ -977,30 +1257,51 @@ def walker_stage(h, src_warm):
 # ----------------------------------------------------------------------------
 
 
+# protocol variants (edited side, source read before the copy, other side read before the edit).
+# The first pass reaches every (kind, variant, route, edit) with two of them, the second pass adds
+# the two that complete the pairwise cover, the third the remaining four; later rounds draw.
+_PASSES = {
+    1: [("copy", True, True), ("original", False, True)],
+    2: [("copy", False, False), ("original", True, False)],
+    3: [("copy", False, True), ("copy", True, False), ("original", False, False), ("original", True, True)],
+}
+
+
 def workload(run):
+    import time
+
     facs = factories()
     rounds = 0
+    t0 = time.time()
+    usable = {}
     while not run.out_of_time(0.9):
+        if rounds in (1, 2):
+            run.note("pass_%d_complete_s" % rounds, round(time.time() - t0, 1))
         rounds += 1
-        base_seed = rounds if rounds > 1 else 1
         for kind, variant, make in facs:
-            seed = int(run.rng.integers(1, 10**6)) if rounds > 1 else base_seed + 2
+            seed = int(run.rng.integers(1, 10**6)) if rounds > 2 else 3
             probe = make(seed)
             for route_name, route in routes_for(probe):
                 h = History(run, kind, variant, make, seed, route_name, route)
-                ok = False
-                for src_warm in (False, True):
-                    if faithful_stage(h, src_warm):
-                        ok = True
-                        walker_stage(h, src_warm)
+                if rounds == 2:
+                    ok = usable.get((kind, variant, route_name), False)
+                else:
+                    ok = False
+                    for src_warm in (False, True):
+                        if faithful_stage(h, src_warm):
+                            ok = True
+                            walker_stage(h, src_warm)
+                    usable[(kind, variant, route_name)] = ok
                 if not ok:
                     continue
                 edits = edits_for(probe, variant)
                 for edit_name, edit in edits:
-                    if rounds == 1:
-                        variants = [("copy", False, False), ("copy", True, True), ("original", False, True), ("original", True, False)]
-                    elif rounds == 2:
-                        variants = [("copy", False, True), ("copy", True, False), ("original", False, False), ("original", True, True)]
+                    if rounds in (1, 2) and "derived_reads" in variant:
+                        # shared indexes / derived objects need a read before the copy: these few
+                        # classes get the four variants of the pairwise cover at once
+                        variants = _PASSES[1] + _PASSES[2] if rounds == 1 else []
+                    elif rounds in _PASSES:
+                        variants = _PASSES[rounds]
                     else:
                         variants = [(("copy", "original")[int(run.rng.integers(2))], bool(run.rng.integers(2)), bool(run.rng.integers(2)))]
                     for side, src_warm, other_warm in variants:
